@@ -174,6 +174,26 @@ def getHash (H : Pre → Nat) : V → HashRes
     | .unspecified => .unspecified
   | v => .ok (.value v)
 
+/-! ### the `data` path: what the backend records
+
+`RedunBackendDb.record_value(value)` serialises the value (`value_interface.serialize()` = the pickle of the
+value as laid out) and stores `value_interface.get_hash(data=data)`; this is the hash recorded for every task
+argument (`Argument.value_hash`) and result (`CallNode.value_hash`, `Value.value_hash`). -/
+
+/-- `ProxyValue.serialize`: the pickle of the instance, i.e. the value as laid out. -/
+def serialize (v : V) : V := v
+
+/-- `value_interface.get_hash(data=…)`: `ProxyValue.get_hash` hashes the caller's bytes under the tag "Value";
+`Set.get_hash` IGNORES `data` (the serialisation of a set is not canonical) and sorts as always. -/
+def getHashData (H : Pre → Nat) (v : V) (data : Option V) : HashRes :=
+  match v, data with
+  | .set xs, _ => getHash H (.set xs)
+  | _, some d => .ok (.value d)
+  | w, Option.none => getHash H w
+
+/-- the value hash `record_value` stores -/
+def recordValue (H : Pre → Nat) (v : V) : HashRes := getHashData H v (some (serialize v))
+
 /-! ### "the same value" in two processes / after two insertion orders -/
 
 mutual
